@@ -16,6 +16,8 @@
 EXTENDS Naturals, Sequences, FiniteSets
 
 CONSTANTS Buf,        \* line-buffer-size
+          ColorOnly,  \* --color-only: every input line is written as one output line (git's interactive.diffFilter);
+                      \* header lines are then written where they stand instead of being composed into one file header
           Fixes       \* which repaired defects the modelled tree contains (a set of names):
                       \*  "D1"  handle_pending_line_with_diff_name emits the output buffer before it
                       \*        writes a header directly to the writer
@@ -25,10 +27,12 @@ CONSTANTS Buf,        \* line-buffer-size
                       \*  "D18" a "---" line of a diff -u stream opens a new file section
                       \*  "D19" a Submodule log line first writes the header still owed to the previous section
                       \*  "D21" the header written for a mode change also says that the file is binary
+                      \*  "D23" (color-only) a header line written directly to the writer first empties the output buffer
                       \*  "D20" "+++ /dev/null" keeps the language chosen from the old name (deleted file)
                       \* Fixes = {} is the tree as pinned; the regression configs drop one fix and
                       \* must produce a counterexample (the design-level check is not vacuous).
 FixEmit == "D1" \in Fixes
+EmitCO(s) == IF "D23" \in Fixes THEN [s EXCEPT !.w = @ \o s.ob, !.ob = <<>>] ELSE s   \* should_write_generic_diff_header_header_line
 
 NoFile == 99
 NotNeeded == 0 - 1000
@@ -83,14 +87,14 @@ Pending(s) ==
        IF s1.mode # 0
        THEN [Direct(s1, Row("fileHdr", s1.seck, <<s1.dlf, s1.dlf, "modified", s1.mode, "D21" \in Fixes /\ s1.bin>>))
                EXCEPT !.mode = 0, !.handled = IF "D14" \in Fixes THEN s1.cur ELSE @]
-       ELSE IF s1.handled # s1.cur THEN WriteHeader(s1)
+       ELSE IF ~ColorOnly /\ s1.handled # s1.cur THEN WriteHeader(s1)
        ELSE s1
 
 \* A line no handler claims: handle_git_show_file_line (emit), handle_blame_line (emit),
 \* handle_grep_line (emit), then should_skip_line (DiffHeader state) or emit_line_unchanged.
 FallThrough(s, k) ==
   LET s1 == Emit(s) IN
-  IF s1.st = "DiffHeader" THEN s1 ELSE Direct(s1, Row("raw", k, <<>>))
+  IF s1.st = "DiffHeader" /\ ~ColorOnly THEN s1 ELSE Direct(s1, Row("raw", k, <<>>))
 
 \* handle_commit_meta_header_line (commit-style not raw)
 HCommit(s, k) ==
@@ -102,15 +106,18 @@ HCommit(s, k) ==
 HDiff(s, k, line) ==
   LET s1 == Pending([Flush(s) EXCEPT !.st = "DiffHeader", !.hh = 0])
       name == IF line.f = line.g THEN line.f ELSE NoFile
-  IN [s1 EXCEPT !.handled = <<>>, !.dlf = name, !.mf = name, !.pf = name, !.mev = "change", !.pev = "change",
-                !.cur = <<name, name>>, !.seck = k, !.bin = FALSE, !.comb = (line.kd = "cc"), !.mcp = ""]
+      s2 == [s1 EXCEPT !.handled = <<>>, !.dlf = name, !.mf = name, !.pf = name, !.mev = "change", !.pev = "change",
+                       !.cur = <<name, name>>, !.seck = k, !.bin = FALSE, !.comb = (line.kd = "cc"), !.mcp = ""]
+  IN \* (should_skip_line is false in color-only mode: emit_line_unchanged)
+     IF ColorOnly THEN Direct(Emit(s2), Row("raw", k, <<>>)) ELSE s2
 
 \* handle_diff_header_file_operation_line: claims the line iff a header is still owed
 HFileOp(s, k, line) ==
   LET s1 == IF line.c = "delfile"
             THEN [s EXCEPT !.mf = s.dlf, !.pf = 0, !.mev = "change", !.pev = "change", !.cur = <<s.dlf, 0>>]
             ELSE [s EXCEPT !.mf = 0, !.pf = s.dlf, !.mev = "change", !.pev = "change", !.cur = <<0, s.dlf>>]
-  IN IF s1.handled # s1.cur THEN s1 ELSE FallThrough(s1, k)
+  IN IF ColorOnly THEN Direct(EmitCO(s1), Row("raw", k, <<>>))       \* the line itself, styled, where it stands
+     ELSE IF s1.handled # s1.cur THEN s1 ELSE FallThrough(s1, k)
 
 \* handle_diff_header_minus_line: never claims the line (returns false unless color-only)
 HMinusHdr(s, k, line) ==
@@ -120,7 +127,7 @@ HMinusHdr(s, k, line) ==
                                               !.seck = IF line.kd = "dufile" THEN k ELSE @,
                                               !.handled = IF "D18" \in Fixes /\ line.c \in {"mmm", "minus3"} THEN <<>> ELSE @] ELSE s
       s1 == Flush([s0 EXCEPT !.mf = line.f, !.mev = ev, !.syn = line.f])   \* set_syntax(old name; None for /dev/null)
-  IN FallThrough(s1, k)
+  IN IF ColorOnly THEN Direct(EmitCO(s1), Row("raw", k, <<>>)) ELSE FallThrough(s1, k)
 
 \* handle_hunk_header_line: only remembers the header
 HHunkHeader(s, k, line) == [s EXCEPT !.st = "HunkHeader", !.hh = k,
@@ -128,13 +135,17 @@ HHunkHeader(s, k, line) == [s EXCEPT !.st = "HunkHeader", !.hh = k,
 
 \* handle_diff_header_mode_line
 HMode(s, k, line) ==
-  IF line.c = "oldmode" THEN [s EXCEPT !.st = "DiffHeader", !.hh = 0, !.mode = 1]
+  IF ColorOnly THEN FallThrough([s EXCEPT !.st = "DiffHeader", !.hh = 0], k)      \* not claimed: the line is passed on
+  ELSE IF line.c = "oldmode" THEN [s EXCEPT !.st = "DiffHeader", !.hh = 0, !.mode = 1]
   ELSE IF s.mode # 0 THEN [s EXCEPT !.st = "DiffHeader", !.hh = 0, !.mode = 2]
   ELSE FallThrough([s EXCEPT !.st = "DiffHeader", !.hh = 0], k)
 
 \* handle_diff_header_misc_line, "Binary files ... differ"
 HBinary(s, k, line) ==
-  IF s.mf = NoFile /\ s.pf = NoFile
+  IF ColorOnly THEN      \* handle_additional_cases(DiffHeader): the line, styled as a file header
+       LET p == IF "D19" \in Fixes /\ s.st = "DiffHeader" THEN Pending(Flush(s)) ELSE Flush(s)
+       IN Direct(Emit([p EXCEPT !.st = "DiffHeader", !.hh = 0]), Row("raw", k, <<>>))
+  ELSE IF s.mf = NoFile /\ s.pf = NoFile
   THEN [Direct(Emit(s), Row("raw", k, <<>>)) EXCEPT !.handled = s.cur]
   ELSE [s EXCEPT !.bin = TRUE]
 
@@ -162,7 +173,7 @@ HPlusHdr(s, k, line) ==
       s1 == Flush([s EXCEPT !.pf = line.f, !.pev = ev, !.cur = <<s.mf, line.f>>,
                             !.syn = IF line.f = 0 /\ "D20" \in Fixes THEN @ ELSE line.f])   \* set_syntax(new name)
       s2 == IF s1.handled # s1.cur THEN WriteHeader(Emit(s1)) ELSE s1
-  IN \* (the handler does not claim the line: inside a hunk - a "+++ x" look-alike of a diff -u stream - the
+  IN IF ColorOnly THEN Direct(EmitCO(s1), Row("raw", k, <<>>)) ELSE \* (the handler does not claim the line: inside a hunk - a "+++ x" look-alike of a diff -u stream - the
      \* chain goes on to handle_hunk_line, which shows it as an added line as well)
      IF s2.st \in HunkStates THEN HHunkLine(s2, k, line) ELSE FallThrough(s2, k)
 
@@ -191,8 +202,9 @@ HConflict(s, k, line) ==
          [] s.mcp = "anc" -> [s EXCEPT !.ma = Append(@, k)]
          [] OTHER -> [s EXCEPT !.mt = Append(@, k)]
 ClaimsConflict(s, line) ==
-  \/ s.st \in HunkStates /\ s.comb /\ line.c = "m_ours"
-  \/ s.st = "MergeConflict"
+  /\ ~ColorOnly                  \* (in color-only mode conflict markers are ordinary hunk lines)
+  /\ \/ s.st \in HunkStates /\ s.comb /\ line.c = "m_ours"
+     \/ s.st = "MergeConflict"
 
 \* handle_submodule_log_line -> handle_additional_cases(SubmoduleLog): no pending-header handling here
 \* ("D19": the header still owed to the previous section is written first)
@@ -232,7 +244,7 @@ StepD(s, k, line) ==
     [] c = "binary" -> HBinary(s, k, line)
     [] c = "onlyin" /\ s.src = "DiffU" -> HOnlyIn(s, k, line)
     [] c = "sublog" -> HSubLog(s, k, line)
-    [] (c = "subm" /\ s.st = "HunkHeader") \/ (c = "subp" /\ s.st = "SubmoduleShort") -> HSubShort(s, k, line)
+    [] ~ColorOnly /\ ((c = "subm" /\ s.st = "HunkHeader") \/ (c = "subp" /\ s.st = "SubmoduleShort")) -> HSubShort(s, k, line)
     [] ClaimsConflict(s, line) -> HConflict(s, k, line)
     [] s.st \in HunkStates -> HHunkLine(s, k, line)
     [] OTHER -> FallThrough(s, k)
